@@ -1264,5 +1264,46 @@ mod reduced_range_rng;
 #[doc(hidden)]
 pub use reduced_range_rng::ReducedRangeRng;
 
+/// Verification hooks (compiled only with `--cfg rten_verif`): select a GEMM
+/// kernel by name from outside the crate.
+#[cfg(rten_verif)]
+pub mod verif {
+    use super::{F32KernelType, GemmExecutor, Int8KernelType, WithKernel};
+
+    /// Names of the f32 kernels usable on this machine.
+    pub fn f32_kernel_names() -> Vec<String> {
+        <GemmExecutor<f32, f32, f32> as WithKernel>::kernel_types()
+            .into_iter()
+            .filter(|k| <GemmExecutor<f32, f32, f32> as WithKernel>::with_kernel(*k).is_some())
+            .map(|k| format!("{:?}", k))
+            .collect()
+    }
+
+    /// Create an f32 executor using the kernel with the given name.
+    pub fn f32_executor(name: &str) -> Option<GemmExecutor<f32, f32, f32>> {
+        <GemmExecutor<f32, f32, f32> as WithKernel>::kernel_types()
+            .into_iter()
+            .find(|k: &F32KernelType| format!("{:?}", k) == name)
+            .and_then(<GemmExecutor<f32, f32, f32> as WithKernel>::with_kernel)
+    }
+
+    /// Names of the u8 x i8 -> i32 kernels usable on this machine.
+    pub fn int8_kernel_names() -> Vec<String> {
+        <GemmExecutor<u8, i8, i32> as WithKernel>::kernel_types()
+            .into_iter()
+            .filter(|k| <GemmExecutor<u8, i8, i32> as WithKernel>::with_kernel(*k).is_some())
+            .map(|k| format!("{:?}", k))
+            .collect()
+    }
+
+    /// Create a u8 x i8 -> i32 executor using the kernel with the given name.
+    pub fn int8_executor(name: &str) -> Option<GemmExecutor<u8, i8, i32>> {
+        <GemmExecutor<u8, i8, i32> as WithKernel>::kernel_types()
+            .into_iter()
+            .find(|k: &Int8KernelType| format!("{:?}", k) == name)
+            .and_then(<GemmExecutor<u8, i8, i32> as WithKernel>::with_kernel)
+    }
+}
+
 #[cfg(test)]
 mod tests;
